@@ -15,10 +15,10 @@
     the trace.
   * `singlePhase`, `finalCleanup`, `equilMMEnd` = the single-phase clean-up and the phase
     label at the end of `dbm.equil_MM` (l.2640-2668).
-  * `mask gather scatter firstIdx backConvert equilibriumPost` = zero-component removal,
-    re-insertion and the conversion of mole fractions back to phase masses in
-    `FluidMixture.equilibrium` (l.660-723, `replace_zeros=True` branch with at least one
-    positive mass).
+  * `mask gather scatter backConvert equilibriumPost` = zero-component removal, re-insertion
+    and the conversion of mole fractions + gas fraction back to phase masses in
+    `FluidMixture.equilibrium` (l.660-721 as of commit 87c9b6c, `replace_zeros=True` branch with
+    at least one positive mass).
   * `kUpdate` = the K-factor update `K = (f_liq/(x_liq P)) / (f_gas/(x_gas P))` of
     `successive_substitution.update_K` (l.3005).  The equation of state is NOT modelled: the
     fugacities are arguments.
@@ -176,18 +176,12 @@ def scatter : List Bool → List α → List α
   | true :: bs, v :: vs => v :: scatter bs vs
   | true :: bs, [] => 0 :: scatter bs []
 
-/-- `idx = 0; while idx < (len(m) - 1) and m[idx] <= 0.: idx += 1` -/
-def firstIdx : List α → Nat
-  | [] => 0
-  | [_] => 0
-  | x :: y :: rest => if x ≤ 0 then firstIdx (y :: rest) + 1 else 0
-
-/-- l.701-721: total moles, gas moles from component `idx`, phase moles, phase masses -/
-def backConvert (m M xg xl : List α) : List α × List α :=
+/-- l.700-721: total moles, gas moles `ng = beta * np.sum(n_tot)` from the gas fraction returned by
+    `equil_MM`, phase moles, phase masses -/
+def backConvert (m M xg xl : List α) (beta : α) : List α × List α :=
   let ntot := Num.vdiv m M
   let N := Num.sum ntot
-  let idx := firstIdx m
-  let ng := Num.abs ((ntot.getD idx 0 - xl.getD idx 0 * N) / (xg.getD idx 0 - xl.getD idx 0))
+  let ng := beta * N
   let ngas := xg.map (fun x => x * ng)
   let nliq := xl.map (fun x => x * (N - ng))
   (Num.vmul ngas M, Num.vmul nliq M)
@@ -200,13 +194,13 @@ structure EqOut (α : Type) where
   K : Option (List α)
 
 /-- everything `equilibrium` does after `equil_MM` returned `o` for the non-zero components
-    (`len(mi[0]) > 0` branch): re-insertion l.677-684, back-conversion l.701-721 -/
+    (`len(mi[0]) > 0` branch): re-insertion l.677-684, back-conversion l.700-721 -/
 def equilibriumPost (m M : List α) (o : MMOut α) : EqOut α :=
   let mk := mask m
   let xg := scatter mk o.xg
   let xl := scatter mk o.xl
   let K := o.K.map (scatter mk)
-  let mm := backConvert m M xg xl
+  let mm := backConvert m M xg xl o.beta
   ⟨mm.1, mm.2, xg, xl, K⟩
 
 /-! ### successive substitution: K-factor update (l.3005) -/
@@ -239,9 +233,8 @@ def dispatch : Dispatch := fun name args =>
     let o := equilMMEnd (α := Float) z (conv = 1) last
     some ([.v o.xg, .v o.xl, .s o.beta] ++ kOut o.K)
   | "Flash.reduce", [.v m, .v x] => some [.v (gather (mask (α := Float) m) x)]
-  | "Flash.firstIdx", [.v m] => some [.n (firstIdx (α := Float) m)]
-  | "Flash.equilibriumPost", [.v m, .v M, .v xg, .v xl, .n knan, .v K] =>
-    let o : MMOut Float := ⟨xg, xl, 0, if knan = 1 then none else some K⟩
+  | "Flash.equilibriumPost", [.v m, .v M, .v xg, .v xl, .s beta, .n knan, .v K] =>
+    let o : MMOut Float := ⟨xg, xl, beta, if knan = 1 then none else some K⟩
     let r := equilibriumPost (α := Float) m M o
     some ([.v r.mg, .v r.ml, .v r.xg, .v r.xl] ++ kOut r.K)
   | "Flash.kUpdate", [.v xg, .v xl, .v fg, .v fl, .s P] => some [.v (kUpdate (α := Float) xg xl fg fl P)]
